@@ -40,6 +40,8 @@ def instances(tier):
         out.append(dict(id="counts-%s-N%d" % (fam, n), family=fam, N=n, mode="counts", dense=(fam in ("euler", "dopri45")), budget=b))
     out.append(dict(id="callback-dt-euler-N2", family="euler", N=2, mode="cbdt", budget=b))
     out.append(dict(id="callback-dt-sympl_euler-N2", family="sympl_euler", N=2, mode="cbdt", budget=b))
+    # the callbacks of a SHORT first call (target nearer than the working step) assign dt; the continuation call starts with that step
+    out.append(dict(id="callback-dt-short-call-then-continuation-euler-N2", family="euler", N=2, mode="cbdt2", budget=b))
     out.append(dict(id="fault-reset-euler-N2", family="euler", N=2, mode="fault", budget=b))
     out.append(dict(id="fd-jacobian-backward_euler-N1", family="backward_euler", N=1, mode="fd", budget=b))
     # runs with events: the real event section of integrate (terminal event: rolled-back step re-taken in sub-steps) with the events oracle
@@ -213,6 +215,30 @@ def scenario(c, inst):
                 ok = c.any([c.eq(s2, g), c.all([c.le(remaining, g), c.eq(s2, remaining)]),
                             c.all([c.lt(remaining, g), c.eq(s2, remaining)])])
                 c.check("c20.dt_assigned_by_callback_is_next_step", ok, info=dict(rows=len(T)))
+            return
+        if mode == "cbdt2":
+            g = c.real("g")
+            T1 = c.real("T1")
+            c.assume((T1 - t0) * (tf - T1) > 0)
+            c.assume(absval(c, T1 - t0) >= 1.0 / 64)
+            c.assume(absval(c, T1 - t0) < absval(c, dt0))            # short call: the target is nearer than the working step
+            c.assume(g >= 1.0 / 64)
+            c.assume(g <= absval(c, tf - T1))                        # the assigned step fits into the continuation
+            c.assume(absval(c, tf - T1) <= 2 * g)
+
+            def setdt(system):
+                system.dt = g
+            st, r = run(a.integrate, T1, callback=[setdt, capcb])
+            if st != "ok":
+                return
+            n1 = len(a.t)
+            st, r = run(a.integrate, callback=[spans.cap_callback(c, cap + 2, kind)])
+            if st != "ok":
+                return
+            T = list(a.t)
+            c.note("n_rows", len(T))
+            if len(T) > n1:
+                c.check("c20.dt_assigned_by_callback_is_first_step_of_the_continuation", c.eq(absval(c, T[n1] - T[n1 - 1]), g), info=dict(rows=len(T), n1=n1))
             return
         if mode == "fault":
             # a fault at an arbitrary later call, then reset, then a clean run
